@@ -55,6 +55,8 @@ var c04Queries = []string{
 	`{ deep { ll { ll { vNN } } } leafy { liNN } }`,
 	`{ a { items(n:2) { owner(as:"C") { ... on C { cOnly deep { vNN } } } n } } }`,
 	`{ solo { ... on B { bOnly } } node(as:"A") { ... on A { solo { ... on B { id nn { sNN } } } } } c { solo { ... on B { bOnly } } } }`,
+	`{ a { ...P } c { ...P } b { ...P } nodes(n:3) { ...P } } fragment P on Node { peer(as:"B") { id } ... on A { peer(as:"B") { ... on B { bOnly } } } ... on C { peer(as:"B") { name } } }`,
+	`{ nodes(n:3, as:"A") { ... on A { u(as:"B") { ... on B { id } } } } a { u(as:"B") { ... on B { id bOnly } } } u(as:"A") { ... on A { u(as:"B") { ... on B { name } } } } }`,
 	`mutation { m1(v:1) { id nn { sNN } } s1(v:2) m2(v:3) { nodes(n:2) { id } } }`,
 	`mutation { deep { dNN { vNN } v } node(as:"B") { id ... on B { nn { s } } } s2(v:1) }`,
 }
